@@ -13,7 +13,7 @@ if [ $tests = 1 ]; then
   rm -f /tmp/mut_${name}.testlog
 fi
 for pid in "$@"; do
-  out=$(cd /verif && VERIF_REPO="$dir" /venv/bin/python /verif/vcheck.py "$pid" --tier ${MUT_TIER:-quick} 2>&1); rc=$?
+  home=$(cd "$(dirname "$0")/.." && pwd); out=$(cd "$home" && VERIF_REPO="$dir" /venv/bin/python "$home/vcheck.py" "$pid" --tier ${MUT_TIER:-quick} 2>&1); rc=$?
   kinds=$(echo "$out" | grep -o 'kind=[^ ]*' | sort -u | tr '\n' ' ')
   echo "$name: $pid exit=$rc $(echo "$out" | grep -c '^VIOLATION') violation-lines $kinds $(echo "$out" | grep '^INCONCLUSIVE' | head -2 | cut -c1-200)"
 done
